@@ -89,7 +89,7 @@ class AppRun:
                         if isinstance(e, (Pruned, Divergence)):
                             raise
                         out.append(("exc", type(e).__name__, str(e)[:120]))
-                    pt = app.ping_thread
+                    pt = getattr(app, "ping_thread", None)
                     self.at_return.append({"ping_alive": bool(pt is not None and pt.is_alive()), "app_sock": app.sock is not None,
                                            "live_threads": [t.name for t in sc.threads[1:] if t.state != "done" and t.name != "closer"]})
                     self.trace.append((sc.now, "--run-returned--", ()))
@@ -102,7 +102,7 @@ class AppRun:
                     if closer.get("start_after"):
                         sc.block(lambda: any(t[1] == closer["start_after"] for t in self.trace) or any(t[1] == "--run-returned--" for t in self.trace), None, "closer-start")
                     else:
-                        sc.block(lambda: app.keep_running or any(t[1] == "--run-returned--" for t in self.trace), None, "closer-start")
+                        sc.block(lambda: getattr(app, "keep_running", True) or any(t[1] == "--run-returned--" for t in self.trace), None, "closer-start")
                     if closer.get("delay"):
                         sc.block(lambda: False, sc.now + closer["delay"], "closer-delay")
                     self.trace.append((sc.now, "--closer-calls-close--", ()))
